@@ -177,8 +177,17 @@ class Rational(Primitive):
                 result = impl(self._value, right._value)
             except ZeroDivisionError:
                 raise _any.InvalidOperandError("Cannot divide %s by zero" % self._value) from None
-            else:
-                return Rational(result)
+            except OverflowError:
+                # Non-integer powers are computed in floating point, whose range is limited.
+                raise _any.InvalidOperandError(
+                    "The result of the operation on %s and %s is out of range" % (self._value, right._value)
+                ) from None
+            if isinstance(result, complex):
+                # A negative number raised to a non-integer power leaves the domain of rationals.
+                raise _any.InvalidOperandError(
+                    "The result of the operation on %s and %s is not a real number" % (self._value, right._value)
+                )
+            return Rational(result)
         else:
             raise _any.UndefinedOperatorError
 
